@@ -78,6 +78,13 @@ def verify(name):
             rc, out = sh("%s -m pytest -q -p no:cacheprovider -n 8 2>&1 | tail -1" % PY, cwd=w, env=env, timeout=1800)
             res["suite"] = out.strip().splitlines()[-1] if out.strip() else "?"
             res["suite_green"] = " failed" not in res["suite"] and " error" not in res["suite"] and "passed" in res["suite"]
+            if not res["suite_green"]:
+                # the repository suite has timing-sensitive tests that fail on a loaded machine: run the failures again, serially
+                rc, out = sh("%s -m pytest -q -p no:cacheprovider 2>&1 | tail -8" % PY, cwd=w, env=env, timeout=3600)
+                last = out.strip().splitlines()[-1] if out.strip() else "?"
+                res["suite_retry_serial"] = last
+                res["suite_failed_tests"] = [l for l in out.splitlines() if l.startswith("FAILED")][:5]
+                res["suite_green"] = " failed" not in last and " error" not in last and "passed" in last
             rc, out = sh("%s %s" % (PY, os.path.join(d, "demo.py")), cwd=w, env=env, timeout=600)
             res["demo_mutant"] = "FAIL" if rc != 0 else "PASS (demo does not detect the change)"
     finally:
